@@ -18,6 +18,13 @@ Anything not understood raises Unsupported -> exit 2 by the driver (never a verd
 """
 import json, re, sys, os, hashlib
 
+# C library functions passed through to the verifier's built-in models (heap containers: utl::vector)
+LIBC_PROTOS = {'malloc': 'void *malloc(unsigned long)', 'calloc': 'void *calloc(unsigned long, unsigned long)',
+               'free': 'void free(void *)', 'memcpy': 'void *memcpy(void *, const void *, unsigned long)'}
+
+LP64_SIZEOF = {'char': 1, 'signed char': 1, 'unsigned char': 1, '_Bool': 1, 'short': 2, 'unsigned short': 2, 'int': 4, 'unsigned int': 4,
+               'long': 8, 'unsigned long': 8, 'long long': 8, 'unsigned long long': 8, 'float': 4, 'double': 8}
+
 class Unsupported(Exception):
     pass
 
@@ -388,12 +395,14 @@ class FCtx:
         self.skip_vars = set()
         self.loops = []        # (ordinal, file, line)
         self.header_temps = None
+        self.dscopes = [[]]    # stack of scopes: each a list of (local name, destructor C name); the string 'LOOP' marks a loop body
 
 class FuncSpec:
     def __init__(self):
         self.requires = []; self.ensures = []; self.assigns = []; self.loops = {}
         self.sig = None; self.name = None; self.src = None; self.used = False
         self.frees = []
+        self.modular_conv = False   # @modular_conversions: integer conversions in this function wrap (no conversion-check)
 
 class LoopSpec:
     def __init__(self):
@@ -432,6 +441,9 @@ def parse_spec_text(text, src='<spec>'):
                 curloop = LoopSpec(); cur.loops[int(rest)] = curloop
             elif d == 'end':
                 cur = None; curloop = None
+            elif d == 'modular_conversions':
+                if cur is None: raise Unsupported('%s: @modular_conversions outside @function' % src)
+                cur.modular_conv = True
             elif d in ('requires', 'ensures', 'assigns', 'frees', 'invariant', 'loop_assigns', 'decreases'):
                 if cur is None: raise Unsupported('%s: clause outside @function' % src)
                 clause = (d, [rest])
@@ -480,6 +492,7 @@ class Translator:
         self._merged = {}
         self._ret_hint = {}
         self.hidden_vars = {}
+        self.legacy_lambda = {}
         self._scan()
 
     # ---------------------------------------------------------------- scanning
@@ -788,11 +801,45 @@ class Translator:
                 parts.append(self.short_arg(a))
             nm = nm + '_' + '_'.join(parts) if parts else nm
         elif not decl.get('name'):
-            nm = 'lambda_%s_%s' % (os.path.basename(str(decl.get('_file') or 'x')).split('.')[0], decl.get('_line'))
+            nm = self.lambda_stable_name(decl)
+            legacy = 'lambda_%s_%s' % (os.path.basename(str(decl.get('_file') or 'x')).split('.')[0], decl.get('_line'))
+            self.legacy_lambda[sanitize(nm)] = sanitize(legacy)
         p = self.ast.par(decl)
         if p is not None and p.get('kind') in RECORD_KINDS:
             nm = self.short_of_name(p) + '__' + nm
         return sanitize(nm)
+
+    def lambda_stable_name(self, decl):
+        """line-independent name of a closure type: lambda_<enclosing function>_<ordinal of the lambda in that function>"""
+        lam = self.ast.par(decl)
+        enc = self.enclosing_fn(decl)
+        if enc is None or lam is None or lam.get('kind') != 'LambdaExpr':
+            return 'lambda_%s_%s' % (os.path.basename(str(decl.get('_file') or 'x')).split('.')[0], decl.get('_line'))
+        body = self.body_of(enc)
+        k = -1; cnt = 0
+        stack = [body] if body is not None else []
+        # also constructor initialisers
+        stack += [c for c in enc.get('inner', []) or [] if c.get('kind') == 'CXXCtorInitializer']
+        order = []
+        def walk(n):
+            if n.get('kind') == 'LambdaExpr':
+                order.append(n)
+                for c in (n.get('inner', []) or [])[1:-1]: walk(c)
+                return
+            for c in n.get('inner', []) or []: walk(c)
+        for x in stack: walk(x)
+        for i, l in enumerate(order):
+            if l is lam or l.get('id') == lam.get('id'): k = i
+        if k < 0:
+            return 'lambda_%s_%s' % (os.path.basename(str(decl.get('_file') or 'x')).split('.')[0], decl.get('_line'))
+        erec = self.enclosing_record(enc)
+        if erec is not None and not erec.get('name') and (self.ast.par(erec) or {}).get('kind') == 'LambdaExpr':
+            base = self.lambda_stable_name(erec)
+        else:
+            nm = enc.get('name', 'fn')
+            if nm.startswith('operator'): nm = 'op_' + self.OPNAMES.get(nm[len('operator'):].strip(), 'x')
+            base = 'lambda_' + nm
+        return '%s_%d' % (base, k)
 
     def short_arg(self, a):
         a = a.strip()
@@ -811,12 +858,14 @@ class Translator:
             pass
         return sanitize(a)
 
-    def uniq(self, table, want, key):
+    def uniq(self, table, want, key, skey=None):
+        """unique C identifier; collisions get a suffix derived from a *stable* key (mangled name / canonical type name),
+        never from AST node addresses"""
         want = want[:120]
         nm = want; i = 1
         while nm in table and table[nm] != key:
             i += 1
-            nm = '%s_%s' % (want, hashlib.sha1(str(key).encode()).hexdigest()[:6]) if i == 2 else '%s_%d' % (want, i)
+            nm = '%s_%s' % (want, hashlib.sha1(str(skey if skey is not None else key).encode()).hexdigest()[:6]) if i == 2 else '%s_%d' % (want, i)
         table[nm] = key
         return nm
 
@@ -835,7 +884,7 @@ class Translator:
             if base in STD_MODELS:
                 return self.model_ct(base, args, fctx, decl)
         short = self.short_of_name(decl)
-        cname = self.uniq(self.struct_names, short, rid)
+        cname = self.uniq(self.struct_names, short, rid, skey=self._record_skey(decl))
         ct = CT('struct', c='struct ' + cname, rec=decl, short=cname)
         self.rec_ct[rid] = ct
         try:
@@ -852,6 +901,13 @@ class Translator:
         self.struct_defs.append(text)
         ct.model = None
         return ct
+
+    def _record_skey(self, decl):
+        q = self.ast.qualname(decl)
+        enc = self.enclosing_fn(decl)
+        if enc is not None:
+            return '%s|%s|%s' % (enc.get('mangledName'), q, self.lambda_stable_name(decl) if not decl.get('name') else '')
+        return q
 
     def _record_lines(self, decl, cname, ct):
         lines = []
@@ -873,10 +929,22 @@ class Translator:
         lam = self.ast.par(decl)
         if lam is not None and lam.get('kind') == 'LambdaExpr':
             cap_inits = (lam.get('inner', []) or [])[1:-1]
+        last_anon = None
         for c in decl.get('inner', []) or []:
             if c.get('kind') == 'FieldDecl':
                 fname = c.get('name') or ('_f%d' % nf)
                 self.field_names[c['id']] = fname
+                fqt = c.get('type', {}).get('qualType') or ''
+                if not c.get('name') and c.get('isImplicit') and last_anon is not None and cap_inits is None \
+                        and ('(anonymous ' in fqt or '(unnamed ' in fqt):
+                    # implicit field holding the anonymous struct/union declared just before it
+                    ft = self.record_ct(last_anon, rctx)
+                    if not hasattr(self, 'anon_field'): self.anon_field = {}
+                    self.anon_field[last_anon['id']] = fname
+                    lines.append('  %s;' % ft.decl(fname))
+                    nf += 1
+                    last_anon = None
+                    continue
                 try:
                     ft = self.ctype(c.get('type'), rctx, c)
                 except Unsupported:
@@ -890,7 +958,22 @@ class Translator:
             elif c.get('kind') in RECORD_KINDS and not c.get('name') and c.get('completeDefinition') and not c.get('isImplicit'):
                 # anonymous struct/union member: emitted through its FieldDecl (which follows); register
                 self.records.setdefault('(anon)%s' % c['id'], c)
+                last_anon = c
         return lines
+
+    def field_path(self, fd, fctx):
+        """C member path of a field relative to the object of fctx.record ('left' inside an anonymous union -> '_f0.left')"""
+        path = self.field_names.get(fd['id'], fd.get('name'))
+        rec = self.ast.par(fd)
+        while rec is not None and not rec.get('name') and rec.get('kind') in RECORD_KINDS:
+            outer = self.ast.par(rec)
+            if outer is None or outer.get('kind') not in RECORD_KINDS: break
+            self.record_ct(outer, fctx)
+            af = getattr(self, 'anon_field', {}).get(rec['id'])
+            if af is None: fail('anonymous record without implicit field', fd)
+            path = af + '.' + path
+            rec = outer
+        return path
 
     def record_is_empty(self, ct):
         if ct.kind != 'struct': return False
@@ -1009,7 +1092,7 @@ class Translator:
             nm = base + ('__' + '_'.join(ps) if ps else '')
             if nm in self.fn_names and self.fn_names[nm] != did and targs:
                 nm = base + '_T_' + '_'.join(targs) + ('__' + '_'.join(ps) if ps else '')
-        nm = self.uniq(self.fn_names, nm, did)
+        nm = self.uniq(self.fn_names, nm, did, skey=decl.get('mangledName') or nm)
         self.fn_cname[did] = nm
         return nm
 
@@ -1148,6 +1231,7 @@ class Translator:
             if c.get('kind') == 'ParmVarDecl':
                 ct = self.ctype(c.get('type'), fctx, c)
                 nm = c.get('name') or ('_p%d' % pi)
+                if any(q['name'] == nm for q in pinfo): nm = '%s_%d' % (nm, pi)   # expanded parameter pack: same name repeated
                 c['_cname'] = nm
                 params.append(ct.decl(nm))
                 if ct.kind == 'ptr' and ct.ref:
@@ -1175,6 +1259,7 @@ class Translator:
                     pre.extend(self.ctor_init(c, fctx))
         body = self.body_of(decl)
         blines = self.stmts(body.get('inner', []) or [], fctx, 1)
+        if not ((body.get('inner') or [{}])[-1].get('kind') == 'ReturnStmt'): blines = blines + self.dtor_calls(fctx.dscopes[0], '  ')
         temps = fctx.temps.pop()
         spec = self.spec_for(decl, cname)
         text = []
@@ -1194,6 +1279,9 @@ class Translator:
         text.extend(pre)
         text.extend(blines)
         text.append('}')
+        if spec is not None and getattr(spec, 'modular_conv', False):
+            # out-of-range integer conversions are modular here (implementation-defined in C++17, modular on gcc/clang/msvc, C++20)
+            text = ['#pragma CPROVER check push', '#pragma CPROVER check disable "conversion"'] + text + ['#pragma CPROVER check pop']
         self.fn_text[decl['id']] = '\n'.join(text)
         self.fn_meta[cname] = {'qualname': norm_type_string(self.ast.qualname(decl)), 'file': decl.get('_file'), 'line': decl.get('_line'),
                                'loops': fctx.loops, 'mangled': decl.get('mangledName'), 'has_spec': spec is not None,
@@ -1330,8 +1418,11 @@ class Translator:
         q = norm_type_string(self.ast.qualname(decl))
         qbare = re.sub(r'<.*>', '', q) if False else q
         hits = []
+        legacy_names = set()
+        for newn, oldn in self.legacy_lambda.items():
+            if newn in cname: legacy_names.add(cname.replace(newn, oldn))
         for s in self.specs:
-            if s.name == cname: hits.append(s); continue
+            if s.name == cname or s.name in legacy_names: hits.append(s); continue
             if self._qual_match(s.name, q):
                 if s.sig is None or s.sig in cname:
                     hits.append(s)
@@ -1343,6 +1434,7 @@ class Translator:
         for h in hits:
             h.used = True
             m.requires += h.requires; m.ensures += h.ensures; m.assigns += h.assigns; m.frees += h.frees
+            m.modular_conv = m.modular_conv or getattr(h, 'modular_conv', False)
             for k, l in h.loops.items():
                 if k in m.loops: fail('loop %d of %s annotated twice' % (k, cname), decl)
                 m.loops[k] = l
@@ -1375,11 +1467,49 @@ class Translator:
         """translate n (compound or single stmt) as a braced block with its own temp scope"""
         pad = '  ' * ind
         fctx.temps.append([])
+        fctx.dscopes.append([])
         if n is None or not n: body = []
         elif n.get('kind') == 'CompoundStmt': body = self.stmts(n.get('inner', []) or [], fctx, ind + 1)
         else: body = self.stmt(n, fctx, ind + 1)
+        dsc = fctx.dscopes.pop()
+        last = (n.get('inner') or [None])[-1] if (n and n.get('kind') == 'CompoundStmt') else n
+        if not (last and last.get('kind') == 'ReturnStmt'): body = body + self.dtor_calls(dsc, pad + '  ')
         temps = fctx.temps.pop()
         return [pad + '{'] + [pad + '  ' + t for t in temps] + body + [pad + '}']
+
+    # ---- destructors of locals with a user-provided destructor (utl::vector): called at scope exit, return, break, continue
+    def dtor_calls(self, scope, pad):
+        return [pad + '%s(&%s);' % (fn, nm) for (nm, fn) in reversed([x for x in scope if x != 'LOOP'])]
+
+    def pending_dtors(self, fctx, upto_loop=False):
+        """destructor calls for every live local, innermost scope first (up to the enclosing loop body if upto_loop)"""
+        out = []
+        for sc in reversed(fctx.dscopes):
+            for x in reversed(sc):
+                if x == 'LOOP':
+                    if upto_loop: return out
+                    continue
+                out.append(x)
+        return out
+
+    def user_dtor(self, ct, node):
+        """the user-provided destructor (with a body) of record type ct, or None. Implicit destructors (members with
+        destructors) are NOT emitted -- unchanged behaviour, see README."""
+        if ct.kind != 'struct' or ct.model or ct.rec is None: return None
+        for c in ct.rec.get('inner', []) or []:
+            if c.get('kind') == 'CXXDestructorDecl' and not c.get('isImplicit') and not c.get('explicitlyDefaulted'):
+                d = self.find_definition(c)
+                if d is None: return None
+                body = self.body_of(d)
+                if not (body.get('inner') or []): return None     # empty body: nothing to run
+                return d
+        return None
+
+    def register_local_dtor(self, name, ct, d, fctx):
+        dt = self.user_dtor(ct, d)
+        if dt is None: return
+        fn = self.request(dt, fctx)
+        fctx.dscopes[-1].append((name, fn))
 
     def new_temp(self, ct, fctx, hint='t'):
         fctx.ntemp += 1
@@ -1441,7 +1571,9 @@ class Translator:
             c = self.cond(cond, fctx) if cond.get('kind') else '1'
             i = self.ex(inc, fctx) if inc.get('kind') else ''
             htemps = fctx.header_temps; fctx.header_temps = None
+            fctx.dscopes.append(['LOOP'])
             bl = self.block(body, fctx, ind + 1)
+            fctx.dscopes.pop()
             temps = fctx.temps.pop()
             out += [pad + '  ' + t for t in temps] + initl
             out += self.line(n, ind)
@@ -1458,26 +1590,36 @@ class Translator:
             fctx.header_temps = []
             c = self.cond(inner[0], fctx)
             htemps = fctx.header_temps; fctx.header_temps = None
-            return L + [pad + 'while (%s)' % c] + self.loop_contract(fctx, k_loop, htemps, pad) + self.block(inner[1], fctx, ind)
+            fctx.dscopes.append(['LOOP'])
+            wbl = self.block(inner[1], fctx, ind)
+            fctx.dscopes.pop()
+            return L + [pad + 'while (%s)' % c] + self.loop_contract(fctx, k_loop, htemps, pad) + wbl
         if k == 'DoStmt':
             inner = n.get('inner', [])
             k_loop = fctx.nloop; fctx.nloop += 1
             fctx.loops.append((k_loop, n.get('_file'), n.get('_line')))
+            fctx.dscopes.append(['LOOP'])
             bl = self.block(inner[0], fctx, ind)
+            fctx.dscopes.pop()
             c = self.cond(inner[1], fctx)
             return L + [pad + 'do'] + self.loop_contract(fctx, k_loop, [], pad) + bl + [pad + 'while (%s);' % c]
         if k == 'ReturnStmt':
             inner = n.get('inner', [])
+            dl = [pad + '%s(&%s);' % (fn, nm) for (nm, fn) in self.pending_dtors(fctx)]
             if not inner or fctx.ret_ct.c == 'void' and fctx.ret_ct.kind == 'builtin':
                 if inner:
-                    return L + [pad + '%s;' % self.ex(inner[0], fctx), pad + 'return;']
-                return L + [pad + 'return;']
+                    return L + [pad + '%s;' % self.ex(inner[0], fctx)] + dl + [pad + 'return;']
+                return L + dl + [pad + 'return;']
             e = inner[0]
+            if dl:
+                # the return value is computed first, then the locals are destroyed
+                rt = self.new_temp(fctx.ret_ct, fctx, 'ret')
+                return L + [pad + '%s = %s;' % (rt, self.addr(e, fctx) if fctx.ret_ref else self.ex(e, fctx))] + dl + [pad + 'return %s;' % rt]
             if fctx.ret_ref:
                 return L + [pad + 'return %s;' % self.addr(e, fctx)]
             return L + [pad + 'return %s;' % self.ex(e, fctx)]
-        if k == 'BreakStmt': return L + [pad + 'break;']
-        if k == 'ContinueStmt': return L + [pad + 'continue;']
+        if k == 'BreakStmt': return L + [pad + '%s(&%s);' % (fn, nm) for (nm, fn) in self.pending_dtors(fctx, True)] + [pad + 'break;']
+        if k == 'ContinueStmt': return L + [pad + '%s(&%s);' % (fn, nm) for (nm, fn) in self.pending_dtors(fctx, True)] + [pad + 'continue;']
         if k == 'AttributedStmt':
             out = []
             for c in n.get('inner', []):
@@ -1562,6 +1704,7 @@ class Translator:
         if pt.kind == 'ref':
             if init is None: fail('reference without initializer', d)
             return [pad + '%s = %s;' % (ct.decl(name), self.addr(init, fctx))]
+        if ct.kind == 'struct': self.register_local_dtor(name, ct, d, fctx)
         if init is None:
             return [pad + ct.decl(name) + ';']
         core = self.strip_wrappers(init)
@@ -1708,8 +1851,47 @@ class Translator:
             if cur.get('kind') in DECL_FN:
                 cnt = sum(1 for c in cur.get('inner', []) or [] if c.get('kind') == 'ParmVarDecl' and c.get('name') == nm)
             cur = self.enclosing_fn(cur)
-        if cnt == 0: fail('cannot determine size of pack %s' % nm, n)
+        if cnt == 0:
+            # a template (type) parameter pack of the enclosing function template: count the specialization's pack arguments
+            cur = fctx.decl
+            while cur is not None:
+                tpl = self.ast.par(cur)
+                if cur.get('kind') in DECL_FN and tpl is not None and tpl.get('kind') == 'FunctionTemplateDecl':
+                    tparams = [c for c in tpl.get('inner', []) or [] if c.get('kind') in ('TemplateTypeParmDecl', 'NonTypeTemplateParmDecl', 'TemplateTemplateParmDecl')]
+                    targs = [c for c in cur.get('inner', []) or [] if c.get('kind') == 'TemplateArgument']
+                    for k, tp in enumerate(tparams):
+                        if tp.get('name') == nm and tp.get('isParameterPack') and k < len(targs) and k == len(tparams) - 1:
+                            ta = targs[k]
+                            if ta.get('isPack') or all(c.get('kind') == 'TemplateArgument' for c in ta.get('inner', []) or [{}]):
+                                return self.lit(len(ta.get('inner', []) or []), self.ctype(n.get('type'), fctx, n))
+                cur = self.enclosing_fn(cur)
+            fail('cannot determine size of pack %s' % nm, n)
         return self.lit(cnt, self.ctype(n.get('type'), fctx, n))
+
+    def ex_CXXNewExpr(self, n, fctx):
+        """only the non-allocating placement form  new(p) T{init}  for scalar T:  ( tmp = (T*)p, *tmp = init, tmp )"""
+        ond = n.get('operatorNewDecl', {}).get('type', {}).get('qualType', '')
+        if not n.get('isPlacement') or n.get('isArray') or not re.match(r'^void \*\((std::)?size_t, void \*\)', ond):
+            fail('new-expression other than non-allocating placement new', n)
+        pct = self.ctype(n.get('type'), fctx, n)
+        if pct.kind != 'ptr' or not pct.elem.is_scalar():
+            fail('placement new of non-scalar type %s' % pct.decl(), n)
+        inner = n.get('inner', []) or []
+        if n.get('initStyle') in ('list', 'call', 'parens'):
+            if len(inner) != 2: fail('placement new: unexpected operands', n)
+            init, place = inner[0], inner[1]
+        else:
+            if len(inner) != 1: fail('placement new: unexpected operands', n)
+            init, place = None, inner[0]
+        t = self.new_temp(pct, fctx)
+        p = '%s = (%s)%s' % (t, pct.decl(), self.paren(self.ex(place, fctx)))
+        if init is None:
+            return '(%s, %s)' % (p, t)     # default-initialisation of a scalar: value indeterminate, nothing to execute
+        core = self.strip_wrappers(init)
+        if core.get('kind') == 'InitListExpr' and not core.get('inner'): v = self.lit(0, pct.elem)
+        elif core.get('kind') == 'InitListExpr': v = self.ex(core['inner'][0], fctx)
+        else: v = self.ex(init, fctx)
+        return '(%s, *%s = %s, %s)' % (p, t, v, t)
 
     def ex_CXXThisExpr(self, n, fctx):
         if fctx.captures is not None:
@@ -1745,6 +1927,8 @@ class Translator:
             return '((void)%s)' % self.paren(self.ex(sub, fctx))
         if ck in ('DerivedToBase', 'UncheckedDerivedToBase'):
             return self.derived_to_base(n, sub, fctx)
+        if ck == 'BaseToDerived':
+            return self.base_to_derived(n, sub, fctx)
         if ck == 'Dependent': fail('dependent cast', n)
         fail('unsupported cast kind %s' % ck, n)
     ex_ImplicitCastExpr = ex_cast
@@ -1782,6 +1966,31 @@ class Translator:
             first = False
         return ('(&%s)' % acc) if is_ptr else ('(%s)' % acc)
 
+    def base_to_derived(self, n, sub, fctx):
+        """static_cast<Derived&>(base) (CRTP): only when every step of the path is the FIRST base (member _base0 at offset 0),
+        so that the cast is a pointer reinterpretation"""
+        tt = n.get('type', {})
+        tpt = parse_type(tt.get('desugaredQualType') or tt.get('qualType'))
+        is_ptr = tpt.kind == 'ptr'
+        dct = self.ct_of(tpt.elem if is_ptr else tpt, fctx, n)
+        if dct.kind != 'struct' or dct.rec is None or dct.model: fail('base-to-derived to non-record', n)
+        path = n.get('path', [])
+        if not path: fail('base-to-derived without path', n)
+        cur = dct
+        for step in path:
+            bases = cur.rec.get('bases', []) or []
+            if not bases: fail('base-to-derived: path step %r not found' % step, n)
+            b0 = self.ctype(bases[0].get('type'), fctx, n)
+            if len(bases) > 1:
+                bn = norm_type_string(self.ast.qualname(b0.rec)) if b0.rec is not None else ''
+                sn = norm_type_string(step.get('name') or '')
+                if not sn or not (bn.endswith(sn) or sn.endswith(bn)):
+                    fail('base-to-derived through a non-first base (needs an offset adjustment)', n)
+            cur = b0
+        e = self.ex(sub, fctx)
+        if is_ptr: return '((%s *)%s)' % (dct.c, self.paren(e))
+        return '(*(%s *)%s)' % (dct.c, self.addr_of_text(e))
+
     def paren(self, s):
         s = s.strip()
         if re.match(r'^[A-Za-z0-9_\.]+$', s): return s
@@ -1801,6 +2010,11 @@ class Translator:
                 nm = d.get('_cname') or d.get('name')
                 if rid in fctx.skip_vars:
                     return self.const_value(d, fctx, n)
+                if rk == 'VarDecl' and d.get('constexpr') and fctx.captures is not None:
+                    # constexpr local of an ENCLOSING function used inside a lambda body without capture (no odr-use): fold it
+                    owner = self.enclosing_fn(d)
+                    if owner is not None and owner.get('id') != fctx.decl.get('id'):
+                        return self.const_value(d, fctx, n)
                 if rk == 'ParmVarDecl' and self.enclosing_fn_of_parm(d) is not fctx.decl and fctx.captures is None:
                     pass
                 if self.is_ref_type(d.get('type')) or d.get('_isref'):
@@ -1896,6 +2110,8 @@ class Translator:
             return v
         if k == 'SubstNonTypeTemplateParmExpr': return self.const_eval(e['inner'][-1], fctx, depth)
         if k == 'TypeTraitExpr' and 'value' in e: return 1 if e['value'] in (True, 'true') else 0
+        if k == 'SizeOfPackExpr':
+            return int(re.match(r'\(*\s*(\d+)', self.ex_SizeOfPackExpr(e, fctx).replace('(unsigned long)', '')).group(1))
         if k == 'DeclRefExpr':
             r = e.get('referencedDecl', {})
             d = self.ast.byid.get(r.get('id'))
@@ -2204,7 +2420,7 @@ class Translator:
             f = c['anyInit']
             fd = self.ast.byid.get(f['id'])
             self.record_ct(self.ast.par(fd), fctx)
-            fname = self.field_names.get(f['id'], f.get('name'))
+            fname = self.field_path(fd, fctx)
             target = 'self->%s' % fname
             fct = self.ctype(fd.get('type'), fctx, fd)
             if e.get('kind') == 'CXXDefaultInitExpr':
@@ -2341,11 +2557,27 @@ class Translator:
         args = inner[1:]
         if self.is_std(callee):
             return self.std_call(n, callee, None, args, fctx)
+        if callee.get('name') in LIBC_PROTOS and callee.get('kind') == 'FunctionDecl' and self.find_definition(callee) is None \
+                and (self.ast.par(callee) or {}).get('kind') in ('TranslationUnitDecl', 'LinkageSpecDecl'):
+            # C library allocation primitives: left to the verifier's own model of malloc/free/memcpy
+            if not hasattr(self, 'libc_used'): self.libc_used = []
+            if callee['name'] not in self.libc_used: self.libc_used.append(callee['name'])
+            # sizeof(<scalar>) is rendered as its LP64 value inside these arguments: CBMC pattern-matches `malloc(sizeof(T) * n)`
+            # into a typed symbolic-size array T[n], which makes byte-wise memcpy over it blow up; `8UL * n` is a byte block.
+            def _szlit(m):
+                t = m.group(1).strip()
+                if t.endswith('*'): return '8UL'
+                return ('%dUL' % LP64_SIZEOF[t]) if t in LP64_SIZEOF else m.group(0)
+            return '%s(%s)' % (callee['name'], ', '.join(re.sub(r'sizeof\(([A-Za-z_ \*]+)\)', _szlit, self.ex(a, fctx)) for a in args))
         fn = self.request(callee, fctx)
         d = self.find_definition(callee)
         call = '%s(%s)' % (fn, ', '.join(self.args_for(d, args, fctx)))
         if self.returns_ref(d, n): return '(*%s)' % call
         return call
+
+    def ex_UserDefinedLiteral(self, n, fctx):
+        # `0_ct` etc.: a call of the literal operator (template form: no arguments; cooked form: the literal as argument)
+        return self.ex_CallExpr(n, fctx)
 
     def ex_CXXMemberCallExpr(self, n, fctx):
         inner = n['inner']
@@ -2497,6 +2729,8 @@ class Translator:
         out = []
         out.append('/* generated by cxx2c from clang\'s AST of the instantiated nmtools code -- do not edit */')
         out.append(prelude_text)
+        for nm in getattr(self, 'libc_used', []):
+            out.append('extern %s;' % LIBC_PROTOS[nm])
         out.extend(self.struct_defs)
         for nm, tyd in self.top_typedefs:
             try:
